@@ -94,7 +94,7 @@ class StateNode():
             states = node["States"]
             self.current_states_node.append(states)
             start_at = node.get("StartAt")
-            if start_at and isinstance(start_at, str):
+            if isinstance(start_at, str):  # N.B. "" is a (dangling) name too
                 self.current_states_incoming.append([start_at])
                 if start_at not in states:
                     problems.append(
@@ -159,7 +159,7 @@ class StateNode():
 
     def add_next(self, node, path, field, problems):
         transition_to = node.get(field)
-        if transition_to and isinstance(transition_to, str):
+        if isinstance(transition_to, str):  # N.B. "" is a (dangling) name too
             if len(self.current_states_node) > 0:
                 if transition_to in self.current_states_node[-1]:
                     self.current_states_incoming[-1].append(transition_to)
